@@ -331,6 +331,8 @@ def gen_spec(r, P):
     S["cap"] = P["stepcap"]
     if P.get("_meta"):
         S["_meta"] = True
+    if P.get("_cont"):
+        S["_cont"] = True
     if P.get("f_bad") and r.random() < P["f_bad"]:
         S["_f_bad"] = True
     if P.get("f_bigclock") and F("f_bigclock"):
